@@ -54,7 +54,7 @@ func reportBroken(o runOpts, msg string, t0 time.Time) int {
 		"coverage":    map[string]any{"explanation": "check could not run: " + msg},
 		"assumptions": []string{}, "wall_s": time.Since(t0).Seconds(), "violations": 0,
 	}
-	writeJSON(filepath.Join(o.verif, "evidence", o.prop+".json"), ev)
+	writeJSON(evidencePath(o), ev)
 	fmt.Println("CHECK-BROKEN:", msg)
 	return 2
 }
@@ -241,7 +241,7 @@ func report(eng *Engine, o runOpts, results []*FuncResult, all []*Obligation, tL
 		"wall_s":      time.Since(t0).Seconds(),
 		"violations":  violations,
 	}
-	writeJSON(filepath.Join(o.verif, "evidence", o.prop+".json"), ev)
+	writeJSON(evidencePath(o), ev)
 	if o.verbose {
 		for _, r := range reports {
 			fmt.Printf("  %-70s %-12s %-8s %.2fs %s\n", r.Name, r.Status, r.Solver, r.TimeS, strings.Join(r.Queries, " "))
@@ -313,4 +313,13 @@ func writeReplayFile(o runOpts, ob *Obligation, path, status, extra string) {
 		doc["pos"] = fmt.Sprintf("%s:%d", ob.Pos.Filename, ob.Pos.Line)
 	}
 	writeJSON(path, doc)
+}
+
+// evidencePath: a partial run (-only) is a debugging aid, not a check of the
+// property: its record goes next to the work files, never over the evidence.
+func evidencePath(o runOpts) string {
+	if o.only != "" {
+		return filepath.Join(o.verif, ".work", "partial-"+o.prop+".json")
+	}
+	return filepath.Join(o.verif, "evidence", o.prop+".json")
 }
